@@ -419,6 +419,28 @@ func Point(desc string, enabled func() bool) {
 	x.yieldFrom(t, false)
 }
 
+// Fine switches on statement-level scheduling points: packages rewritten with the overlay's "fine" rule call
+// Yield before every statement of every function body. Straight-line code (no locks, I/O or channels) is
+// otherwise executed atomically by a cooperative scheduler, so two executions of such a function never
+// interleave and state they share is never observed mixed up.
+var Fine bool
+
+// Yield is a scheduling point that is always enabled; a no-op unless Fine is set and an execution is active.
+//
+//go:norace
+func Yield(site string) {
+	if !Fine {
+		return
+	}
+	x := e
+	if x == nil || x.dead || x.cur == nil {
+		return
+	}
+	Point("stmt "+site, yieldEnabled)
+}
+
+func yieldEnabled() bool { return true }
+
 // WaitIdle blocks the caller until no other thread is enabled.
 //
 //go:norace
